@@ -209,6 +209,85 @@ func runC05(c *Ctx, in M) (out interface{}) {
 	return M{"completed": true, "problems": problems, "lookupErrors": lookupErrs > 0}
 }
 
+// c05.stale (child process): a FORCED schedule. A writer X (a batch, or a two-dataset transaction) is started while the
+// dataset's write lock is held by another writer; that writer then commits W0 and releases the lock, X commits after it.
+// Commit order is W0, X — so X must be the latest version for every reader: listing, scoped lookup (newest commit time)
+// and the feed's recorded times must agree. A writer that draws its commit time before it owns the lock breaks that.
+func runC05Stale(c *Ctx, in M) (out interface{}) {
+	h := OpenHub(filepath.Join(c.Dir, "c05s"), false)
+	defer h.Destroy()
+	for _, d := range []string{"a", "b"} {
+		h.Dsm.CreateDataset(d, nil)
+	}
+	h.Store.NamespaceManager.AssertPrefixMappingForExpansion(storeNS)
+	a := h.Dsm.GetDataset("a")
+	mk := func(v int) *server.Entity {
+		e := server.NewEntity("ns3:e1", 0)
+		e.Properties["ns3:v"] = v
+		return e
+	}
+	if err := a.StoreEntities([]*server.Entity{mk(1)}); err != nil {
+		return M{"completed": false, "problems": []string{"setup: " + err.Error()}}
+	}
+	a.VerifLock()
+	done := make(chan error, 1)
+	go func() {
+		if gets(in, "x") == "txn" {
+			done <- h.Store.ExecuteTransaction(&server.Transaction{DatasetEntities: map[string][]*server.Entity{"a": {mk(3)}, "b": {mk(3)}}})
+		} else {
+			done <- a.StoreEntities([]*server.Entity{mk(3)})
+		}
+	}()
+	time.Sleep(time.Duration(geti(in, "parkMs")) * time.Millisecond) // X parks on the lock
+	errW := a.VerifStoreHoldingLock([]*server.Entity{mk(2)})
+	a.VerifUnlock()
+	var errX error
+	select {
+	case errX = <-done:
+	case <-time.After(20 * time.Second):
+		return M{"completed": false, "problems": []string{"X never finished"}}
+	}
+	problems := []string{}
+	if errW != nil || errX != nil {
+		problems = append(problems, fmt.Sprintf("write failed: %v %v", errW, errX))
+	}
+	chg, _ := a.GetChanges(0, 0, false)
+	vals := []string{}
+	var prev uint64
+	for _, e := range chg.Entities {
+		vals = append(vals, fmt.Sprint(e.Properties["ns3:v"]))
+		if e.Recorded < prev {
+			problems = append(problems, "feed: recorded times decrease (commit order ≠ time order)")
+		}
+		prev = e.Recorded
+	}
+	if fmt.Sprint(vals) != "[1 2 3]" {
+		problems = append(problems, "feed is "+fmt.Sprint(vals)+", expected [1 2 3]")
+	}
+	res, _ := a.GetEntities("", 0)
+	if len(res.Entities) != 1 || fmt.Sprint(res.Entities[0].Properties["ns3:v"]) != "3" {
+		problems = append(problems, "listing does not show the last committed version")
+	}
+	lk, err := h.Store.GetEntity("ns3:e1", []string{"a"}, true)
+	if err != nil || lk == nil || fmt.Sprint(lk.Properties["ns3:v"]) != "3" {
+		v := interface{}(nil)
+		if lk != nil {
+			v = lk.Properties["ns3:v"]
+		}
+		problems = append(problems, fmt.Sprintf("scoped lookup shows v=%v, the last committed version is v=3", v))
+	}
+	sort.Strings(problems)
+	return M{"completed": true, "problems": problems, "lookupErrors": false}
+}
+
+func genC05Stale(c *Ctx) {
+	for _, x := range []string{"batch", "txn"} {
+		for _, park := range []int{60, 150} {
+			c.DoChild("c05.stale", M{"x": x, "parkMs": park}, 40*time.Second)
+		}
+	}
+}
+
 func genC05(c *Ctx) {
 	runs := 6
 	if c.Thorough {
@@ -223,4 +302,7 @@ func init() {
 	register("c05", genC05)
 	registerKind("c05.conc", runC05)
 	childKinds["c05.conc"] = true
+	register("c05stale", genC05Stale)
+	registerKind("c05.stale", runC05Stale)
+	childKinds["c05.stale"] = true
 }
